@@ -221,10 +221,6 @@ namespace vh
             auto n = prod(sv);
             if (n > MAX_EMIT || n < 0) { out.i(-1); return; }
             out.i(n);
-            if (sv.size() == 0) {
-                // 0-dim array: not expected from the library, report explicitly
-                return;
-            }
             for (Odo o(sv); !o.end; o.next()) {
                 out.num(static_cast<elem_t>(nm::apply_at(a, o.idx)));
             }
